@@ -19,6 +19,8 @@ func (x *Exec) libCall(st *State, q string, recv *Value, args []*Value, sig *typ
 	case strings.HasPrefix(q, "github.com/jimsnab/go-lane."):
 		// logging: effect-free on emulator state
 		return x.freshResults(st, sig, "lane"), true
+	case q == "context.Background" || q == "context.TODO":
+		return x.freshResults(st, sig, "ctx"), true
 	case q == "time.Sleep":
 		// no effect on program state
 		return nil, true
